@@ -180,6 +180,14 @@ impl ISocket for RepSocket {
 
     let peer_to_reply_to = {
       let mut guard = self.state.lock();
+      // The reply travels behind the routing envelope of the request; together they must fit one message.
+      if let RepState::ReceivedRequest(info) = &*guard {
+        if info.routing_prefix.len() + user_payload_frames.len() > FrameBatch::MAX_FRAMES {
+          return Err(ZmqError::InvalidMessage(
+            "REP send_multipart: reply and routing envelope exceed the frames one message can hold".into(),
+          ));
+        }
+      }
       match std::mem::replace(&mut *guard, RepState::ReadyToReceive) {
         RepState::ReceivedRequest(info) => info,
         RepState::ReadyToReceive => {
